@@ -29,6 +29,9 @@ def check(ctx):
     edges(ctx, P)
     detector_shape(ctx, P)
     loop(ctx, P, iters)
+    # re-entering a run method must not clear the pending-check flag (shared instance: C16's prologue writes nothing but the clock)
+    from . import c16
+    c16.prologue(ctx, P)
     ctx.assume("the knot search (detect_deadlock) and the incremental edge maintenance are not decided")
 
 
@@ -165,6 +168,13 @@ def detector_shape(ctx, P):
         for r in [x for x in ast.walk(fn) if isinstance(x, ast.Return)]:
             if scans_precedes(fn, r, scan[0]):
                 ctx.violation(ob, "R10.detector-pure", "StateDigraph.detect_deadlock", unparse(r), "early-exit-before-scan", "the detector answers before it has looked at the graph", loc(r))
+    # inside the component loop only a positive answer may return: one component that is not a knot says nothing about the others
+    for lp in scan:
+        for r in [x for x in ast.walk(lp) if isinstance(x, ast.Return)]:
+            if not (isinstance(r.value, ast.Constant) and r.value.value is True):
+                ctx.violation(ob, "R10.detector-pure", "StateDigraph.detect_deadlock", unparse(r)[:80], "negative-answer-before-all-components",
+                              "the search returns from inside the loop over the strongly connected components with an answer that may be False: a deadlock in a later "
+                              "component is then missed", loc(r))
     # re-added edges
     fn = ci.methods.get("action_at_attach_server")
     fn = rules.temporaries_free(fn) if fn is not None else None
